@@ -278,10 +278,30 @@ def _run_loop_with_spec(it, node, frame, spec, kind, iterable=None):
     except ContinueSignal:
         pass
     except BreakSignal:
-        # leaves the loop with the current state; for/while-else is skipped
+        # leaves the loop with the current state; for/while-else is skipped.  A for-loop whose
+        # specification speaks about every element must not be left while elements remain (the
+        # per-iteration clauses say nothing about elements that are never reached), unless the
+        # specification allows it (search loops).
+        if not getattr(spec, 'allow_break', False):
+            if loop_kind == 'seq':
+                p.oblige('%s#break:nothing-left-unprocessed' % qn,
+                         z3.Length(frame.locals['_todo'].term) == 0, kind='frame', assume_after=False)
+            elif loop_kind == 'range':
+                p.oblige('%s#break:nothing-left-unprocessed' % qn,
+                         int_term(frame.locals['_pos']) >= int_term(rng[1]), kind='frame', assume_after=False)
         for src in getattr(spec, 'on_break', ()):
             exec_in(it, frame, src)
         return
+    except ReturnSignal:
+        # `return` from inside the loop body: the same requirement as for `break`
+        if not getattr(spec, 'allow_break', False) and not it.spec_mode:
+            if loop_kind == 'seq':
+                p.oblige('%s#return:nothing-left-unprocessed' % qn,
+                         z3.Length(frame.locals['_todo'].term) == 0, kind='frame', assume_after=False)
+            elif loop_kind == 'range':
+                p.oblige('%s#return:nothing-left-unprocessed' % qn,
+                         int_term(frame.locals['_pos']) >= int_term(rng[1]), kind='frame', assume_after=False)
+        raise
     for (name, desc, init, step) in spec_ghost:
         if step is not None:
             _store(frame, name, eval_in(it, frame, step))
